@@ -1892,7 +1892,10 @@ def h_c14_sound(L, role):
         for j, v in enumerate(vs):
             b.append(f'assert!(spec::get(braw, {H.rng(f.ranges)}, {j * f.stride}u32) == {H.val_bits(f.ty, v)}, "VERIF builder: field {f.name}{"[%d]" % j if f.array else ""} does not read back the argument supplied for it (a bit is writable twice)");')
     reach = ()
-    if not L.default:
+    # without a default the writable fields must cover every bit: all-ones must be buildable -- decidable this way
+    # only when every writable field's type can take the all-ones pattern (an Option<enum> field with a sparse
+    # enum cannot, whatever the builder does)
+    if not L.default and all(f.ty.kind != "optenum" for f in L.fields if f.writable):
         b.append(f'vcover!(braw == {mask(L.base):#x}u128, "VERIF-REACH-all-ones");')
         reach = ("VERIF-REACH-all-ones",)
     b.append("vend!();")
